@@ -5,8 +5,10 @@ which the construct was opened). This file proves that, for **every** body and *
 semantic-after (on constructs), `before` and `after` probes — any number of them, on any constructs, nested in any way — the tables
 behave like a **stack of frames**, one per open construct, and that the encoded function is what the stack machine `specRun` says:
 entry probes behind the opener, exit probes in front of the matching `end` (of an `if`: in front of its `else`, or of its `end` when
-it has none), semantic-after probes behind the matching `end`, in the order they were injected. Out of scope here: block
-alternates (Lemmas/BlockAlt.lean), semantic-after on branches (flags: Lemmas/SemBranch.lean), function entry / exit.
+it has none), semantic-after probes behind the matching `end`, in the order they were injected. The step lemmas are stated for the
+*core* of one iteration (`rcore`: everything but the function-level part `rpre`) and for whatever instruction currently stands in the
+body, so that Lemmas/StackAlt.lean (block alternates) and Lemmas/StackFull.lean (semantic-after on branches, function entry / exit)
+extend the same machine.
 -/
 namespace Orca.Lower
 
@@ -110,6 +112,84 @@ def flat (t : ToInject) : List Tok := t.notFlagged.flatten
 
 theorem resolveBodies_noflag (t : ToInject) (h : t.flagged = []) : resolveBodies t = flat t := by
   simp [resolveBodies, resolveBodies.chain, h, flat]
+
+/-- the flag-guarded chain that `resolve_bodies` builds from the flagged bodies of one table entry -/
+def chainToks (fl : List (List Tok × Nat)) : List Tok :=
+  resolveBodies.chain fl true ++ (if fl.isEmpty then [] else [tEnd])
+
+theorem resolveBodies_eq (t : ToInject) : resolveBodies t = chainToks t.flagged ++ flat t := rfl
+
+theorem chainToks_nil : chainToks [] = [] := rfl
+
+/-! ### one iteration = function-level part, then the rest -/
+
+/-- the function-level part of one iteration: entry code in front of instruction 0, exit code in front of every instruction that
+    leaves the function and in front of the final `end` -/
+def rpre (last : Nat) (s : RState) (idx : Nat) (ins : Instr) : RState :=
+  let s := if !s.entry.isEmpty && idx == 0 then { s with body := addBefore s.body 0 s.entry, entry := [] } else s
+  if s.exit.isEmpty then s
+  else if ins.kind == .exitLike then { s with body := addBefore s.body idx s.exit }
+  else if idx == last then { s with body := addBefore s.body idx ([tEnd] ++ s.exit), exit := [] }
+  else s
+
+/-- the rest of the iteration: block structure, alternates, special lists -/
+def rcore (s : RState) (idx : Nat) (ins : Instr) : RState :=
+  let handleAlt (s : RState) (isElse : Bool) : Option RState :=
+    match ins.blockAlt with
+    | some alt =>
+      if s.deleteBlock.isNone then
+        some { s with body := planBlockAlt s.body idx alt, retainEnd := isElse, deleteBlock := some (top s.stack) }
+      else some { s with body := discardSpecial (setEmptyAlt s.body idx) idx }
+    | none => if s.deleteBlock.isSome then some { s with body := discardSpecial (setEmptyAlt s.body idx) idx } else none
+  let flushElseOrEnd (s : RState) (k : Nat) : RState :=
+    if s.onElseOrEnd.any (·.1 == k) then
+      { s with body := addBefore s.body idx (resolveBodies (getInj s.onElseOrEnd k)), onElseOrEnd := removeInj s.onElseOrEnd k }
+    else s
+  match ins.kind with
+  | .block | .loop | .if_ =>
+    let s := { s with stack := s.stack ++ [s.stack.length] }
+    match handleAlt s false with
+    | some s' => s'
+    | none => planSpecial s idx ins
+  | .else_ =>
+    let s := flushElseOrEnd s (top s.stack)
+    match handleAlt s true with
+    | some s' => s'
+    | none => planSpecial s idx ins
+  | .end_ =>
+    match s.stack.getLast? with
+    | none => planSpecial s idx ins
+    | some blockId =>
+      let s := { s with stack := s.stack.dropLast }
+      let cont : Option RState :=
+        match s.deleteBlock with
+        | some d =>
+          if d == blockId then
+            if !s.retainEnd then some { s with deleteBlock := none, retainEnd := true, body := discardSpecial (setEmptyAlt s.body idx) idx }
+            else none
+          else some { s with body := discardSpecial (setEmptyAlt s.body idx) idx }
+        | none => none
+      match cont with
+      | some s' => s'
+      | none =>
+        let s := if s.deleteBlock == some blockId then { s with deleteBlock := none, retainEnd := true } else s
+        let s := flushElseOrEnd s blockId
+        let bInj := getInj s.onEndBefore blockId
+        let aInj := getInj s.onEndAfter blockId
+        let hasB := s.onEndBefore.any (·.1 == blockId)
+        let hasA := s.onEndAfter.any (·.1 == blockId)
+        let b := if hasB then addBefore s.body idx (resolveBodies bInj) else s.body
+        let b := if hasA then addAfter b idx (resolveBodies aInj) else b
+        let s := { s with body := b, onEndBefore := removeInj s.onEndBefore blockId, onEndAfter := removeInj s.onEndAfter blockId }
+        planSpecial s idx ins
+  | _ =>
+    if s.deleteBlock.isSome then { s with body := discardSpecial (setEmptyAlt s.body idx) idx }
+    else planSpecial s idx ins
+
+theorem rstep_eq (last : Nat) (s : RState) (idx : Nat) (ins : Instr) : rstep last s idx ins = rcore (rpre last s idx ins) idx ins := rfl
+
+theorem rpre_nil (last : Nat) (s : RState) (idx : Nat) (ins : Instr) (h1 : s.entry = []) (h2 : s.exit = []) : rpre last s idx ins = s := by
+  simp [rpre, h1, h2]
 
 end Orca.Lower
 
@@ -257,8 +337,12 @@ theorem stageSem_spec (s : RState) (done rest : List Instr) (c ins : Instr)
 structure Fr where
   ifExit : List Tok := []     -- block-exit probes of an `if`, waiting for its `else` or `end`
   exitB : List Tok := []      -- block-exit probes waiting for the `end`
-  afterA : List Tok := []     -- semantic-after probes waiting for the `end`
+  afterA : List Tok := []     -- semantic-after probes (of constructs) waiting for the `end`
+  afterFl : List (List Tok × Nat) := []   -- semantic-after probes of branches that target the construct: body and flag local
 deriving Repr
+
+/-- what goes behind the `end` that closes the frame: the flag-guarded bodies, then the unguarded ones -/
+def endAfter (f : Fr) : List Tok := chainToks f.afterFl ++ f.afterA
 
 /-- the frame of the construct with block id `k` (ids count from the outside: the function body is 0) -/
 def frAt (fr : List Fr) (k : Nat) : Fr := (fr.reverse[k]?).getD {}
@@ -283,23 +367,24 @@ structure Plain (i : Instr) : Prop where
   blockAlt : i.blockAlt = none
   only : i.kind.isBlockStyle = false → i.semAfter = [] ∧ i.blockEntry = [] ∧ i.blockExit = []
 
-/-- one instruction: the frames afterwards, and the code that ends up in front of / behind its token -/
+/-- one instruction: the frames afterwards, and the code that ends up in front of its token (behind its own `before` list) and behind
+    it (behind its own `after` list) -/
 def specStep (fr : List Fr) (i : Instr) : Option (List Fr × List Tok × List Tok) :=
   match i.kind with
-  | .block | .loop => some ({ exitB := i.blockExit, afterA := i.semAfter } :: fr, i.before, i.after ++ i.blockEntry)
-  | .if_ => some ({ ifExit := i.blockExit, afterA := i.semAfter } :: fr, i.before, i.after ++ i.blockEntry)
+  | .block | .loop => some ({ exitB := i.blockExit, afterA := i.semAfter } :: fr, [], i.blockEntry)
+  | .if_ => some ({ ifExit := i.blockExit, afterA := i.semAfter } :: fr, [], i.blockEntry)
   | .else_ =>
     -- an `else` belongs to an `if`: there is a frame below the one it continues (at least the function body's)
     match fr with
     | top :: below :: rest =>
-      some ({ exitB := top.exitB ++ i.blockExit, afterA := top.afterA ++ i.semAfter } :: below :: rest, i.before ++ top.ifExit,
-        i.after ++ i.blockEntry)
+      some ({ top with ifExit := [], exitB := top.exitB ++ i.blockExit, afterA := top.afterA ++ i.semAfter } :: below :: rest, top.ifExit,
+        i.blockEntry)
     | _ => none
   | .end_ =>
     match fr with
-    | top :: rest => some (rest, i.before ++ top.ifExit ++ top.exitB, i.after ++ top.afterA)
+    | top :: rest => some (rest, top.ifExit ++ top.exitB, endAfter top)
     | [] => none
-  | _ => some (fr, i.before, i.after)
+  | _ => some (fr, [], [])
 
 /-- the encoded function according to the stack machine (`none`: the body is not well nested) -/
 def specRun (last : Nat) : Nat → List Fr → List Instr → Option (List Tok)
@@ -313,24 +398,29 @@ def specRun (last : Nat) : Nat → List Fr → List Instr → Option (List Tok)
       else
         match specRun last (idx + 1) fr' is with
         | none => none
-        | some rest => some (b ++ [i.tok] ++ (if idx ≥ last then [] else a) ++ rest)
+        | some rest => some (i.before ++ b ++ [i.tok] ++ (if idx ≥ last then [] else i.after ++ a) ++ rest)
 
 /-- the resolver's state agrees with a stack of frames -/
 structure Tied (s : RState) (fr : List Fr) : Prop where
-  entry : s.entry = []
-  exit : s.exit = []
   del : s.deleteBlock = none
   stack : s.stack = List.range fr.length
   f1 : ∀ k, (getInj s.onElseOrEnd k).flagged = []
   f2 : ∀ k, (getInj s.onEndBefore k).flagged = []
-  f3 : ∀ k, (getInj s.onEndAfter k).flagged = []
   t1 : ∀ k, flat (getInj s.onElseOrEnd k) = (frAt fr k).ifExit
   t2 : ∀ k, flat (getInj s.onEndBefore k) = (frAt fr k).exitB
   t3 : ∀ k, flat (getInj s.onEndAfter k) = (frAt fr k).afterA
+  t3f : ∀ k, (getInj s.onEndAfter k).flagged = (frAt fr k).afterFl
+
+/-- what a step of the core leaves alone -/
+def Keep (s s' : RState) : Prop := s'.nlocals = s.nlocals ∧ s'.added = s.added ∧ s'.entry = s.entry ∧ s'.exit = s.exit
+
+theorem Keep.refl (s : RState) : Keep s s := ⟨rfl, rfl, rfl, rfl⟩
 
 /-- the current instruction after the step: token and alternate kept, `before` and `after` extended -/
 def Chg (c c' : Instr) (B A : List Tok) : Prop :=
   c'.before = c.before ++ B ∧ c'.after = c.after ++ A ∧ c'.alt = c.alt ∧ c'.tok = c.tok
+
+theorem Chg.refl (c : Instr) : Chg c c [] [] := ⟨by simp, by simp, rfl, rfl⟩
 
 theorem Grown.chg {c c' : Instr} {ts : List Tok} (h : Grown c c' ts) : Chg c c' [] ts := ⟨by simp [h.1], h.2.1, h.2.2.1, h.2.2.2⟩
 
@@ -374,16 +464,16 @@ theorem range_push (n : Nat) : List.range n ++ [(List.range n).length] = List.ra
 
 /-- the tables after an opener / an `else`: one key gets bodies appended -/
 theorem tied_tables_add (tbl : List (Nat × ToInject)) (sel : Fr → List Tok) (fr : List Fr) (n : Nat) (c : Prop) [Decidable c] (body : List Tok)
-    (hfl : ∀ k, (getInj tbl k).flagged = []) (ht : ∀ k, flat (getInj tbl k) = sel (frAt fr k)) :
-    (∀ k, (getInj (if c ∧ body ≠ [] then addFlat tbl n body else tbl) k).flagged = [])
+    (ht : ∀ k, flat (getInj tbl k) = sel (frAt fr k)) :
+    (∀ k, (getInj (if c ∧ body ≠ [] then addFlat tbl n body else tbl) k).flagged = (getInj tbl k).flagged)
     ∧ (∀ k, flat (getInj (if c ∧ body ≠ [] then addFlat tbl n body else tbl) k) = sel (frAt fr k) ++ (if k = n ∧ c then body else [])) := by
   by_cases hc : c ∧ body ≠ []
   · rw [if_pos hc]
-    refine ⟨fun k => by rw [addFlat_flagged]; exact hfl k, fun k => ?_⟩
+    refine ⟨fun k => by rw [addFlat_flagged], fun k => ?_⟩
     rw [addFlat_flat, ht k]
     by_cases hk : k = n <;> simp [hk, hc.1]
   · rw [if_neg hc]
-    refine ⟨hfl, fun k => ?_⟩
+    refine ⟨fun _ => rfl, fun k => ?_⟩
     rw [ht k]
     by_cases hcc : c
     · have : body = [] := by
@@ -394,61 +484,66 @@ theorem tied_tables_add (tbl : List (Nat × ToInject)) (sel : Fr → List Tok) (
     · simp [hcc]
 
 /-- **openers.** `block` / `loop` / `if` push a frame -/
-theorem rstep_open (last : Nat) (s : RState) (fr : List Fr) (done rest : List Instr) (ins : Instr) (hp : Plain ins)
-    (ht : Tied s fr) (hb : s.body = done ++ ins :: rest) (hk : ins.kind = .block ∨ ins.kind = .loop ∨ ins.kind = .if_) :
-    let s' := rstep last s done.length ins
+theorem rcore_open (s : RState) (fr : List Fr) (done rest : List Instr) (c ins : Instr) (hp : Plain ins)
+    (ht : Tied s fr) (hb : s.body = done ++ c :: rest) (hk : ins.kind = .block ∨ ins.kind = .loop ∨ ins.kind = .if_) :
+    let s' := rcore s done.length ins
     let f : Fr := if ins.kind = .if_ then { ifExit := ins.blockExit, afterA := ins.semAfter }
                   else { exitB := ins.blockExit, afterA := ins.semAfter }
-    Tied s' (f :: fr) ∧ s'.nlocals = s.nlocals ∧ s'.added = s.added
-      ∧ ∃ c', s'.body = done ++ c' :: rest ∧ Chg ins c' [] ins.blockEntry := by
+    Tied s' (f :: fr) ∧ Keep s s' ∧ ∃ c', s'.body = done ++ c' :: rest ∧ Chg c c' [] ins.blockEntry := by
   have hbs : ins.kind.isBlockStyle = true := by rcases hk with h | h | h <;> simp [h, Kind.isBlockStyle]
-  have hred : rstep last s done.length ins = planSpecial { s with stack := s.stack ++ [s.stack.length] } done.length ins := by
+  have hred : rcore s done.length ins = planSpecial { s with stack := s.stack ++ [s.stack.length] } done.length ins := by
     rcases hk with h | h | h <;>
-      simp only [rstep, ht.entry, ht.exit, h, hp.blockAlt, ht.del, List.isEmpty_nil, Bool.not_true, Bool.false_and, Bool.false_eq_true,
-        if_false, if_true, Option.isNone_none, Option.isSome_none]
+      simp only [rcore, h, hp.blockAlt, ht.del, Bool.false_eq_true, if_false, Option.isNone_none, Option.isSome_none]
   simp only [hred]
   obtain ⟨⟨c', hb', hc'⟩, p1, p2, p3, p4, p5, p6, p7, p8, p9⟩ :=
-    planSpecial_spec { s with stack := s.stack ++ [s.stack.length] } done rest ins ins hbs hb
+    planSpecial_spec { s with stack := s.stack ++ [s.stack.length] } done rest c ins hbs hb
   have hst : (s.stack ++ [s.stack.length]) = List.range (fr.length + 1) := by rw [ht.stack]; exact range_push _
   have htop : top (s.stack ++ [s.stack.length]) = fr.length := by rw [hst, top_range_succ]
   simp only [htop] at p7 p8 p9
-  refine ⟨⟨p3.trans ht.entry, p4.trans ht.exit, p2.trans ht.del, by rw [p1, hst]; simp, ?_, ?_, ?_, ?_, ?_, ?_⟩, p5, p6, c', hb', hc'⟩
-  · rw [p7]; exact (tied_tables_add s.onElseOrEnd (·.ifExit) fr fr.length (ins.kind = .if_) ins.blockExit ht.f1 ht.t1).1
-  · rw [p8]; exact (tied_tables_add s.onEndBefore (·.exitB) fr fr.length (ins.kind ≠ .if_) ins.blockExit ht.f2 ht.t2).1
-  · rw [p9]
-    have := (tied_tables_add s.onEndAfter (·.afterA) fr fr.length True ins.semAfter ht.f3 ht.t3).1
-    simpa using this
+  have hnew : frAt fr fr.length = {} := frAt_ge fr _ (Nat.le_refl _)
+  refine ⟨⟨p2.trans ht.del, by rw [p1, hst]; simp, ?_, ?_, ?_, ?_, ?_, ?_⟩, ⟨p5, p6, p3, p4⟩, c', hb', hc'⟩
+  · intro k; rw [p7, (tied_tables_add s.onElseOrEnd (·.ifExit) fr fr.length (ins.kind = .if_) ins.blockExit ht.t1).1]; exact ht.f1 k
+  · intro k; rw [p8, (tied_tables_add s.onEndBefore (·.exitB) fr fr.length (ins.kind ≠ .if_) ins.blockExit ht.t2).1]; exact ht.f2 k
   · intro k
-    rw [p7, (tied_tables_add s.onElseOrEnd (·.ifExit) fr fr.length (ins.kind = .if_) ins.blockExit ht.f1 ht.t1).2 k, frAt_push]
+    rw [p7, (tied_tables_add s.onElseOrEnd (·.ifExit) fr fr.length (ins.kind = .if_) ins.blockExit ht.t1).2 k, frAt_push]
     by_cases hk' : k = fr.length
-    · subst hk'; rw [frAt_ge fr _ (Nat.le_refl _)]
+    · subst hk'; rw [hnew]
       by_cases hi : ins.kind = .if_ <;> simp [hi]
     · simp [hk']
   · intro k
-    rw [p8, (tied_tables_add s.onEndBefore (·.exitB) fr fr.length (ins.kind ≠ .if_) ins.blockExit ht.f2 ht.t2).2 k, frAt_push]
+    rw [p8, (tied_tables_add s.onEndBefore (·.exitB) fr fr.length (ins.kind ≠ .if_) ins.blockExit ht.t2).2 k, frAt_push]
     by_cases hk' : k = fr.length
-    · subst hk'; rw [frAt_ge fr _ (Nat.le_refl _)]
+    · subst hk'; rw [hnew]
       by_cases hi : ins.kind = .if_ <;> simp [hi]
     · simp [hk']
   · intro k
     rw [p9]
-    have := (tied_tables_add s.onEndAfter (·.afterA) fr fr.length True ins.semAfter ht.f3 ht.t3).2 k
+    have := (tied_tables_add s.onEndAfter (·.afterA) fr fr.length True ins.semAfter ht.t3).2 k
     simp only [true_and, and_true] at this
     rw [this, frAt_push]
     by_cases hk' : k = fr.length
-    · subst hk'; rw [frAt_ge fr _ (Nat.le_refl _)]
+    · subst hk'; rw [hnew]
+      by_cases hi : ins.kind = .if_ <;> simp [hi]
+    · simp [hk']
+  · intro k
+    rw [p9]
+    have := (tied_tables_add s.onEndAfter (·.afterA) fr fr.length True ins.semAfter ht.t3).1 k
+    simp only [true_and] at this
+    rw [this, ht.t3f k, frAt_push]
+    by_cases hk' : k = fr.length
+    · subst hk'; rw [hnew]
       by_cases hi : ins.kind = .if_ <;> simp [hi]
     · simp [hk']
 
 /-- **instructions that neither open nor close** leave the frames alone -/
-theorem rstep_other (last : Nat) (s : RState) (fr : List Fr) (ins : Instr) (hp : Plain ins) (ht : Tied s fr)
+theorem rcore_other (s : RState) (fr : List Fr) (ins : Instr) (hp : Plain ins) (ht : Tied s fr)
     (hk : ins.kind ≠ .block ∧ ins.kind ≠ .loop ∧ ins.kind ≠ .if_ ∧ ins.kind ≠ .else_ ∧ ins.kind ≠ .end_) (idx : Nat) :
-    rstep last s idx ins = s := by
+    rcore s idx ins = s := by
   have hnb : ins.kind.isBlockStyle = false := by
     cases hkk : ins.kind <;> simp_all [Kind.isBlockStyle]
   obtain ⟨h1, h2, h3⟩ := hp.only hnb
   have hps := planSpecial_nospecial s idx ins h1 h2 h3
-  cases hkk : ins.kind <;> simp_all [rstep, ht.entry, ht.exit, ht.del]
+  cases hkk : ins.kind <;> simp_all [rcore, ht.del]
 
 /-- the pending block-exit bodies of an `if` are put in front of its `else` / `end` -/
 def flushE (s : RState) (idx k : Nat) : RState :=
@@ -479,20 +574,18 @@ theorem flushE_spec (s : RState) (done rest : List Instr) (c : Instr) (k : Nat) 
 theorem frAt_top (top : Fr) (rest : List Fr) : frAt (top :: rest) rest.length = top := frAt_cons_top top rest
 
 /-- **`else`.** the pending exit bodies of the `if` go in front of it; the arm's own probes join the frame -/
-theorem rstep_else (last : Nat) (s : RState) (top : Fr) (rfr : List Fr) (done rest : List Instr) (ins : Instr) (hp : Plain ins)
-    (ht : Tied s (top :: rfr)) (hb : s.body = done ++ ins :: rest) (hk : ins.kind = .else_) :
-    let s' := rstep last s done.length ins
-    let f : Fr := { exitB := top.exitB ++ ins.blockExit, afterA := top.afterA ++ ins.semAfter }
-    Tied s' (f :: rfr) ∧ s'.nlocals = s.nlocals ∧ s'.added = s.added
-      ∧ ∃ c', s'.body = done ++ c' :: rest ∧ Chg ins c' top.ifExit ins.blockEntry := by
+theorem rcore_else (s : RState) (top : Fr) (rfr : List Fr) (done rest : List Instr) (c ins : Instr) (hp : Plain ins)
+    (ht : Tied s (top :: rfr)) (hb : s.body = done ++ c :: rest) (hk : ins.kind = .else_) :
+    let s' := rcore s done.length ins
+    let f : Fr := { top with ifExit := [], exitB := top.exitB ++ ins.blockExit, afterA := top.afterA ++ ins.semAfter }
+    Tied s' (f :: rfr) ∧ Keep s s' ∧ ∃ c', s'.body = done ++ c' :: rest ∧ Chg c c' top.ifExit ins.blockEntry := by
   have hbs : ins.kind.isBlockStyle = true := by simp [hk, Kind.isBlockStyle]
   have htop : Lower.top s.stack = rfr.length := by rw [ht.stack]; simp only [List.length_cons]; exact top_range_succ _
-  have hred : rstep last s done.length ins = planSpecial (flushE s done.length rfr.length) done.length ins := by
+  have hred : rcore s done.length ins = planSpecial (flushE s done.length rfr.length) done.length ins := by
     cases ha : s.onElseOrEnd.any (fun x => x.fst == rfr.length) <;>
-      simp only [rstep, flushE, ha, ht.entry, ht.exit, hk, hp.blockAlt, ht.del, htop, List.isEmpty_nil, Bool.not_true, Bool.false_and,
-        Bool.false_eq_true, if_false, if_true, Option.isSome_none]
+      simp only [rcore, flushE, ha, hk, hp.blockAlt, ht.del, htop, Bool.false_eq_true, if_false, if_true, Option.isSome_none]
   simp only [hred]
-  obtain ⟨⟨c1, hb1, hc1⟩, q0, q1, q2, q3, q4, q5, q6, q7, q8, q9, _⟩ := flushE_spec s done rest ins rfr.length hb ht.f1
+  obtain ⟨⟨c1, hb1, hc1⟩, q0, q1, q2, q3, q4, q5, q6, q7, q8, q9, _⟩ := flushE_spec s done rest c rfr.length hb ht.f1
   obtain ⟨⟨c', hb', hc'⟩, p1, p2, p3, p4, p5, p6, p7, p8, p9⟩ :=
     planSpecial_spec (flushE s done.length rfr.length) done rest c1 ins hbs hb1
   have hne : ¬ (ins.kind = Kind.if_) := by rw [hk]; simp
@@ -500,33 +593,35 @@ theorem rstep_else (last : Nat) (s : RState) (top : Fr) (rfr : List Fr) (done re
   simp only [hne, false_and, if_false] at p7
   rw [q2, htop, q8] at p8
   rw [q2, htop, q9] at p9
-  have hchg : Chg ins c' top.ifExit ins.blockEntry := by
+  have hchg : Chg c c' top.ifExit ins.blockEntry := by
     have := hc1.trans hc'
     have e1 : flat (getInj s.onElseOrEnd rfr.length) = top.ifExit := by rw [ht.t1, frAt_top]
     simpa [e1] using this
-  refine ⟨⟨p3.trans (q4.trans ht.entry), p4.trans (q5.trans ht.exit), p2.trans (q3.trans ht.del), ?_, ?_, ?_, ?_, ?_, ?_, ?_⟩,
-    p5.trans q6, p6.trans q7, c', hb', hchg⟩
+  refine ⟨⟨p2.trans (q3.trans ht.del), ?_, ?_, ?_, ?_, ?_, ?_, ?_⟩, ⟨p5.trans q6, p6.trans q7, p3.trans q4, p4.trans q5⟩, c', hb', hchg⟩
   · rw [p1, q2, ht.stack]; simp
   · intro k; rw [p7]
     by_cases hkk : k = rfr.length
     · subst hkk; rw [q0]
     · rw [q1 k hkk]; exact ht.f1 k
-  · rw [p8]; exact (tied_tables_add s.onEndBefore (·.exitB) (top :: rfr) rfr.length (ins.kind ≠ .if_) ins.blockExit ht.f2 ht.t2).1
-  · rw [p9]
-    have := (tied_tables_add s.onEndAfter (·.afterA) (top :: rfr) rfr.length True ins.semAfter ht.f3 ht.t3).1
-    simpa using this
+  · intro k; rw [p8, (tied_tables_add s.onEndBefore (·.exitB) (top :: rfr) rfr.length (ins.kind ≠ .if_) ins.blockExit ht.t2).1]; exact ht.f2 k
   · intro k; rw [p7, frAt_push]
     by_cases hkk : k = rfr.length
     · subst hkk; rw [q0]; simp [flat]
     · rw [q1 k hkk, ht.t1, frAt_push]; simp [hkk]
   · intro k
-    rw [p8, (tied_tables_add s.onEndBefore (·.exitB) (top :: rfr) rfr.length (ins.kind ≠ .if_) ins.blockExit ht.f2 ht.t2).2 k, frAt_push, frAt_push]
+    rw [p8, (tied_tables_add s.onEndBefore (·.exitB) (top :: rfr) rfr.length (ins.kind ≠ .if_) ins.blockExit ht.t2).2 k, frAt_push, frAt_push]
     by_cases hkk : k = rfr.length <;> simp [hkk, hne']
   · intro k
     rw [p9]
-    have := (tied_tables_add s.onEndAfter (·.afterA) (top :: rfr) rfr.length True ins.semAfter ht.f3 ht.t3).2 k
+    have := (tied_tables_add s.onEndAfter (·.afterA) (top :: rfr) rfr.length True ins.semAfter ht.t3).2 k
     simp only [true_and, and_true] at this
     rw [this, frAt_push, frAt_push]
+    by_cases hkk : k = rfr.length <;> simp [hkk]
+  · intro k
+    rw [p9]
+    have := (tied_tables_add s.onEndAfter (·.afterA) (top :: rfr) rfr.length True ins.semAfter ht.t3).1 k
+    simp only [true_and] at this
+    rw [this, ht.t3f k, frAt_push, frAt_push]
     by_cases hkk : k = rfr.length <;> simp [hkk]
 
 /-- what an `end` does once its block id `n` has been popped: flush the three tables at `n` around it -/
@@ -536,12 +631,13 @@ def endE (s : RState) (idx n : Nat) : RState :=
   let b := if s.onEndAfter.any (·.1 == n) then addAfter b idx (resolveBodies (getInj s.onEndAfter n)) else b
   { s with body := b, onEndBefore := removeInj s.onEndBefore n, onEndAfter := removeInj s.onEndAfter n }
 
+theorem resolveBodies_empty : resolveBodies {} = [] := rfl
+
 theorem endE_spec (s : RState) (done rest : List Instr) (c : Instr) (n : Nat) (hb : s.body = done ++ c :: rest)
-    (h1 : ∀ j, (getInj s.onElseOrEnd j).flagged = []) (h2 : ∀ j, (getInj s.onEndBefore j).flagged = [])
-    (h3 : ∀ j, (getInj s.onEndAfter j).flagged = []) :
+    (h1 : ∀ j, (getInj s.onElseOrEnd j).flagged = []) (h2 : ∀ j, (getInj s.onEndBefore j).flagged = []) :
     let s' := endE s done.length n
     (∃ c', s'.body = done ++ c' :: rest
-        ∧ Chg c c' (flat (getInj s.onElseOrEnd n) ++ flat (getInj s.onEndBefore n)) (flat (getInj s.onEndAfter n)))
+        ∧ Chg c c' (flat (getInj s.onElseOrEnd n) ++ flat (getInj s.onEndBefore n)) (resolveBodies (getInj s.onEndAfter n)))
     ∧ getInj s'.onElseOrEnd n = {} ∧ getInj s'.onEndBefore n = {} ∧ getInj s'.onEndAfter n = {}
     ∧ (∀ j, j ≠ n → getInj s'.onElseOrEnd j = getInj s.onElseOrEnd j ∧ getInj s'.onEndBefore j = getInj s.onEndBefore j
         ∧ getInj s'.onEndAfter j = getInj s.onEndAfter j)
@@ -552,7 +648,6 @@ theorem endE_spec (s : RState) (done rest : List Instr) (c : Instr) (n : Nat) (h
   simp only []
   rw [q8, q9]
   have rB := resolveBodies_noflag _ (h2 n)
-  have rA := resolveBodies_noflag _ (h3 n)
   refine ⟨?_, q0, getInj_removeInj_self _ _, getInj_removeInj_self _ _,
     fun j hj => ⟨q1 j hj, getInj_removeInj_other _ _ _ hj, getInj_removeInj_other _ _ _ hj⟩, q2, q3, q4, q5, q6, q7⟩
   cases hB : s.onEndBefore.any (·.1 == n) <;> cases hA : s.onEndAfter.any (·.1 == n)
@@ -560,46 +655,45 @@ theorem endE_spec (s : RState) (done rest : List Instr) (c : Instr) (n : Nat) (h
     have eB := getInj_absent _ _ hB
     have eA := getInj_absent _ _ hA
     refine ⟨c1, by simpa using hb1, ?_⟩
-    rw [eB, eA]
+    rw [eB, eA, resolveBodies_empty]
     have := hc1
     simpa [flat, Chg] using this
   · have eB := getInj_absent _ _ hB
-    refine ⟨{ c1 with mode := some .after, after := c1.after ++ flat (getInj s.onEndAfter n) }, ?_, ?_⟩
-    · simp only [Bool.false_eq_true, if_false, if_true, hb1, addAfter, modifyAt_mid, rA]
+    refine ⟨{ c1 with mode := some .after, after := c1.after ++ resolveBodies (getInj s.onEndAfter n) }, ?_, ?_⟩
+    · simp only [Bool.false_eq_true, if_false, if_true, hb1, addAfter, modifyAt_mid]
     · rw [eB]
       exact ⟨by simp [hc1.1, flat], by simp [hc1.2.1], hc1.2.2.1, hc1.2.2.2⟩
   · have eA := getInj_absent _ _ hA
     refine ⟨{ c1 with mode := some .before, before := c1.before ++ flat (getInj s.onEndBefore n) }, ?_, ?_⟩
     · simp only [Bool.false_eq_true, if_false, if_true, hb1, addBefore, modifyAt_mid, rB]
-    · rw [eA]
-      exact ⟨by simp [hc1.1, List.append_assoc], by simp [hc1.2.1, flat], hc1.2.2.1, hc1.2.2.2⟩
+    · rw [eA, resolveBodies_empty]
+      exact ⟨by simp [hc1.1, List.append_assoc], by simp [hc1.2.1], hc1.2.2.1, hc1.2.2.2⟩
   · refine ⟨{ c1 with mode := some .after, before := c1.before ++ flat (getInj s.onEndBefore n),
-                       after := c1.after ++ flat (getInj s.onEndAfter n) }, ?_, ?_⟩
-    · simp only [if_true, hb1, addBefore, addAfter, modifyAt_mid, rB, rA]
+                       after := c1.after ++ resolveBodies (getInj s.onEndAfter n) }, ?_, ?_⟩
+    · simp only [if_true, hb1, addBefore, addAfter, modifyAt_mid, rB]
     · exact ⟨by simp [hc1.1, List.append_assoc], by simp [hc1.2.1], hc1.2.2.1, hc1.2.2.2⟩
 
 /-- **`end`.** the frame is popped; its bodies go around the `end` -/
-theorem rstep_end (last : Nat) (s : RState) (top : Fr) (rfr : List Fr) (done rest : List Instr) (ins : Instr) (hp : Plain ins)
-    (ht : Tied s (top :: rfr)) (hb : s.body = done ++ ins :: rest) (hk : ins.kind = .end_) :
-    let s' := rstep last s done.length ins
-    Tied s' rfr ∧ s'.nlocals = s.nlocals ∧ s'.added = s.added
-      ∧ ∃ c', s'.body = done ++ c' :: rest ∧ Chg ins c' (top.ifExit ++ top.exitB) top.afterA := by
+theorem rcore_end (s : RState) (top : Fr) (rfr : List Fr) (done rest : List Instr) (c ins : Instr) (hp : Plain ins)
+    (ht : Tied s (top :: rfr)) (hb : s.body = done ++ c :: rest) (hk : ins.kind = .end_) :
+    let s' := rcore s done.length ins
+    Tied s' rfr ∧ Keep s s' ∧ ∃ c', s'.body = done ++ c' :: rest ∧ Chg c c' (top.ifExit ++ top.exitB) (endAfter top) := by
   have hnb : ins.kind.isBlockStyle = false := by simp [hk, Kind.isBlockStyle]
   obtain ⟨z1, z2, z3⟩ := hp.only hnb
   have hst : s.stack = List.range (rfr.length + 1) := by rw [ht.stack]; rfl
-  have hred : rstep last s done.length ins = endE { s with stack := List.range rfr.length } done.length rfr.length := by
+  have hred : rcore s done.length ins = endE { s with stack := List.range rfr.length } done.length rfr.length := by
     have hnone : ((none : Option Nat) == some rfr.length) = false := rfl
     cases ha : s.onElseOrEnd.any (fun x => x.fst == rfr.length) <;> cases hB : s.onEndBefore.any (fun x => x.fst == rfr.length) <;>
       cases hA : s.onEndAfter.any (fun x => x.fst == rfr.length) <;>
-      simp only [rstep, endE, flushE, ha, hB, hA, ht.entry, ht.exit, hk, ht.del, hst, range_succ_getLast, range_succ_dropLast, hnone,
-        List.isEmpty_nil, Bool.not_true, Bool.false_and, Bool.false_eq_true, if_false, if_true, planSpecial_nospecial _ _ _ z1 z2 z3]
+      simp only [rcore, endE, flushE, ha, hB, hA, hk, ht.del, hst, range_succ_getLast, range_succ_dropLast, hnone,
+        Bool.false_eq_true, if_false, if_true, planSpecial_nospecial _ _ _ z1 z2 z3]
   simp only [hred]
   obtain ⟨⟨c', hb', hc'⟩, e1, e2, e3, e4, e5, e6, e7, e8, e9, e10⟩ :=
-    endE_spec { s with stack := List.range rfr.length } done rest ins rfr.length hb ht.f1 ht.f2 ht.f3
+    endE_spec { s with stack := List.range rfr.length } done rest c rfr.length hb ht.f1 ht.f2
   have hpop : ∀ k, k ≠ rfr.length → frAt (top :: rfr) k = frAt rfr k := by
     intro k hk'; rw [frAt_push]; simp [hk']
   have hge : frAt rfr rfr.length = {} := frAt_ge rfr _ (Nat.le_refl _)
-  refine ⟨⟨e7.trans ht.entry, e8.trans ht.exit, e6.trans ht.del, e5, ?_, ?_, ?_, ?_, ?_, ?_⟩, e9, e10, c', hb', ?_⟩
+  refine ⟨⟨e6.trans ht.del, e5, ?_, ?_, ?_, ?_, ?_, ?_⟩, ⟨e9, e10, e7, e8⟩, c', hb', ?_⟩
   · intro k
     by_cases hk' : k = rfr.length
     · subst hk'; rw [e1]
@@ -608,10 +702,6 @@ theorem rstep_end (last : Nat) (s : RState) (top : Fr) (rfr : List Fr) (done res
     by_cases hk' : k = rfr.length
     · subst hk'; rw [e2]
     · rw [(e4 k hk').2.1]; exact ht.f2 k
-  · intro k
-    by_cases hk' : k = rfr.length
-    · subst hk'; rw [e3]
-    · rw [(e4 k hk').2.2]; exact ht.f3 k
   · intro k
     by_cases hk' : k = rfr.length
     · subst hk'; rw [e1, hge]; rfl
@@ -624,38 +714,42 @@ theorem rstep_end (last : Nat) (s : RState) (top : Fr) (rfr : List Fr) (done res
     by_cases hk' : k = rfr.length
     · subst hk'; rw [e3, hge]; rfl
     · rw [(e4 k hk').2.2]; show flat (getInj s.onEndAfter k) = _; rw [ht.t3, hpop k hk']
+  · intro k
+    by_cases hk' : k = rfr.length
+    · subst hk'; rw [e3, hge]
+    · rw [(e4 k hk').2.2]; show (getInj s.onEndAfter k).flagged = _; rw [ht.t3f, hpop k hk']
   · have a1 : flat (getInj s.onElseOrEnd rfr.length) = top.ifExit := by rw [ht.t1, frAt_top]
     have a2 : flat (getInj s.onEndBefore rfr.length) = top.exitB := by rw [ht.t2, frAt_top]
-    have a3 : flat (getInj s.onEndAfter rfr.length) = top.afterA := by rw [ht.t3, frAt_top]
+    have a3 : resolveBodies (getInj s.onEndAfter rfr.length) = endAfter top := by
+      rw [resolveBodies_eq, ht.t3, ht.t3f, frAt_top]; rfl
     have := hc'
     simp only [a1, a2, a3] at this
     exact this
 
 /-- **one step of the resolver is one step of the stack machine** -/
-theorem rstep_tied (last : Nat) (s : RState) (fr : List Fr) (done rest : List Instr) (ins : Instr) (hp : Plain ins)
-    (ht : Tied s fr) (hb : s.body = done ++ ins :: rest) (fr' : List Fr) (B A : List Tok) (hs : specStep fr ins = some (fr', B, A)) :
-    let s' := rstep last s done.length ins
-    Tied s' fr' ∧ s'.nlocals = s.nlocals ∧ s'.added = s.added
-      ∧ ∃ c', s'.body = done ++ c' :: rest ∧ c'.before = B ∧ c'.after = A ∧ c'.alt = none ∧ c'.tok = ins.tok := by
+theorem rcore_tied (s : RState) (fr : List Fr) (done rest : List Instr) (c ins : Instr) (hp : Plain ins)
+    (ht : Tied s fr) (hb : s.body = done ++ c :: rest) (fr' : List Fr) (B A : List Tok) (hs : specStep fr ins = some (fr', B, A)) :
+    let s' := rcore s done.length ins
+    Tied s' fr' ∧ Keep s s' ∧ ∃ c', s'.body = done ++ c' :: rest ∧ Chg c c' B A := by
   cases hk : ins.kind with
   | block =>
     simp only [specStep, hk, Option.some.injEq, Prod.mk.injEq] at hs
     obtain ⟨rfl, rfl, rfl⟩ := hs
-    obtain ⟨t, n1, n2, c', hb', hc'⟩ := rstep_open last s fr done rest ins hp ht hb (.inl hk)
+    obtain ⟨t, n1, c', hb', hc'⟩ := rcore_open s fr done rest c ins hp ht hb (.inl hk)
     simp only [hk, reduceCtorEq, if_false] at t
-    exact ⟨t, n1, n2, c', hb', by simpa using hc'.1, hc'.2.1, hc'.2.2.1.trans hp.alt, hc'.2.2.2⟩
+    exact ⟨t, n1, c', hb', hc'⟩
   | loop =>
     simp only [specStep, hk, Option.some.injEq, Prod.mk.injEq] at hs
     obtain ⟨rfl, rfl, rfl⟩ := hs
-    obtain ⟨t, n1, n2, c', hb', hc'⟩ := rstep_open last s fr done rest ins hp ht hb (.inr (.inl hk))
+    obtain ⟨t, n1, c', hb', hc'⟩ := rcore_open s fr done rest c ins hp ht hb (.inr (.inl hk))
     simp only [hk, reduceCtorEq, if_false] at t
-    exact ⟨t, n1, n2, c', hb', by simpa using hc'.1, hc'.2.1, hc'.2.2.1.trans hp.alt, hc'.2.2.2⟩
+    exact ⟨t, n1, c', hb', hc'⟩
   | if_ =>
     simp only [specStep, hk, Option.some.injEq, Prod.mk.injEq] at hs
     obtain ⟨rfl, rfl, rfl⟩ := hs
-    obtain ⟨t, n1, n2, c', hb', hc'⟩ := rstep_open last s fr done rest ins hp ht hb (.inr (.inr hk))
+    obtain ⟨t, n1, c', hb', hc'⟩ := rcore_open s fr done rest c ins hp ht hb (.inr (.inr hk))
     simp only [hk, if_true] at t
-    exact ⟨t, n1, n2, c', hb', by simpa using hc'.1, hc'.2.1, hc'.2.2.1.trans hp.alt, hc'.2.2.2⟩
+    exact ⟨t, n1, c', hb', hc'⟩
   | else_ =>
     cases fr with
     | nil => simp [specStep, hk] at hs
@@ -665,41 +759,39 @@ theorem rstep_tied (last : Nat) (s : RState) (fr : List Fr) (done rest : List In
       | cons below rfr =>
         simp only [specStep, hk, Option.some.injEq, Prod.mk.injEq] at hs
         obtain ⟨rfl, rfl, rfl⟩ := hs
-        obtain ⟨t, n1, n2, c', hb', hc'⟩ := rstep_else last s top (below :: rfr) done rest ins hp ht hb hk
-        exact ⟨t, n1, n2, c', hb', hc'.1, hc'.2.1, hc'.2.2.1.trans hp.alt, hc'.2.2.2⟩
+        exact rcore_else s top (below :: rfr) done rest c ins hp ht hb hk
   | end_ =>
     cases fr with
     | nil => simp [specStep, hk] at hs
     | cons top rfr =>
       simp only [specStep, hk, Option.some.injEq, Prod.mk.injEq] at hs
       obtain ⟨rfl, rfl, rfl⟩ := hs
-      obtain ⟨t, n1, n2, c', hb', hc'⟩ := rstep_end last s top rfr done rest ins hp ht hb hk
-      exact ⟨t, n1, n2, c', hb', by rw [hc'.1, List.append_assoc], hc'.2.1, hc'.2.2.1.trans hp.alt, hc'.2.2.2⟩
+      exact rcore_end s top rfr done rest c ins hp ht hb hk
   | br _ | brIf _ | brTable _ _ | exitLike | other =>
     all_goals
       simp only [specStep, hk, Option.some.injEq, Prod.mk.injEq] at hs
       obtain ⟨rfl, rfl, rfl⟩ := hs
-      have := rstep_other last s fr ins hp ht (by simp [hk]) done.length
+      have := rcore_other s fr ins hp ht (by simp [hk]) done.length
       rw [this]
-      exact ⟨ht, rfl, rfl, ins, hb, rfl, rfl, hp.alt, rfl⟩
+      exact ⟨ht, Keep.refl s, c, hb, Chg.refl c⟩
 
 /-- **the whole loop.** -/
 theorem rloop_tied (last : Nat) : ∀ (xs : List Instr) (s : RState) (fr : List Fr) (done : List Instr) (out : List Tok),
-    (∀ x ∈ xs, Plain x) → Tied s fr → s.body = done ++ xs → specRun last done.length fr xs = some out →
+    (∀ x ∈ xs, Plain x) → Tied s fr → s.entry = [] → s.exit = [] → s.body = done ++ xs → specRun last done.length fr xs = some out →
     let s' := rloop last s done.length xs
     ∃ done', s'.body = done ++ done' ∧ done'.length = xs.length ∧ emitFrom last done.length done' = out ∧ s'.added = s.added
       ∧ s'.nlocals = s.nlocals := by
   intro xs
   induction xs with
   | nil =>
-    intro s fr done out _ _ hb hs
+    intro s fr done out _ _ _ _ hb hs
     simp only [specRun] at hs
     split at hs
     · simp only [Option.some.injEq] at hs; subst hs
       exact ⟨[], by simpa [rloop] using hb, rfl, rfl, rfl, rfl⟩
     · cases hs
   | cons x xs ih =>
-    intro s fr done out hp ht hb hs
+    intro s fr done out hp ht hen hex hb hs
     simp only [specRun] at hs
     cases h1 : specStep fr x with
     | none => simp [h1] at hs
@@ -712,14 +804,17 @@ theorem rloop_tied (last : Nat) : ∀ (xs : List Instr) (s : RState) (fr : List 
       | none => simp [h2] at hs
       | some outr =>
         simp only [h2, Option.some.injEq] at hs
-        obtain ⟨t, n1, n2, c', hb', cb, ca, cal, ctok⟩ := rstep_tied last s fr done xs x (hp x (List.mem_cons_self ..)) ht hb fr' B A h1
+        have hpx := hp x (List.mem_cons_self ..)
+        have hstep : rstep last s done.length x = rcore s done.length x := by rw [rstep_eq, rpre_nil _ _ _ _ hen hex]
+        obtain ⟨t, ⟨n1, n2, n3, n4⟩, c', hb', cb, ca, cal, ctok⟩ := rcore_tied s fr done xs x x hpx ht hb fr' B A h1
+        rw [← hstep] at t n1 n2 n3 n4 hb'
         have hb2 : (rstep last s done.length x).body = (done ++ [c']) ++ xs := by rw [hb']; simp
         have hlen : (done ++ [c']).length = done.length + 1 := by simp
         obtain ⟨d', e1, e0, e2, e3, e4⟩ := ih (rstep last s done.length x) fr' (done ++ [c']) outr
-          (fun y hy => hp y (List.mem_cons_of_mem _ hy)) t hb2 (by rw [hlen]; exact h2)
+          (fun y hy => hp y (List.mem_cons_of_mem _ hy)) t (n3.trans hen) (n4.trans hex) hb2 (by rw [hlen]; exact h2)
         refine ⟨c' :: d', ?_, by simp [e0], ?_, ?_, ?_⟩
         · simp only [rloop]; rw [← hlen, e1]; simp
-        · simp only [emitFrom, cb, ca, cal, ctok]
+        · simp only [emitFrom, cb, ca, cal.trans hpx.alt, ctok]
           rw [← hlen, e2, ← hs]
         · simp only [rloop]; rw [← hlen, e3, n2]
         · simp only [rloop]; rw [← hlen, e4, n1]
@@ -778,12 +873,15 @@ theorem plain_modifyAt_mode (xs : List Instr) (j : Nat) (m : Option Mode) (hp : 
       subst h1
       exact ⟨px.alt, px.blockAlt, px.only⟩
 
-theorem tied_init (body : List Instr) (nlocals : Nat) :
-    Tied ({ body := body, entry := [], exit := [], nlocals := nlocals } : RState) [{}] := by
-  refine ⟨rfl, rfl, rfl, rfl, ?_, ?_, ?_, ?_, ?_, ?_⟩ <;> intro k <;>
+theorem tied_init (body : List Instr) (entry exit : List Tok) (nlocals : Nat) :
+    Tied ({ body := body, entry := entry, exit := exit, nlocals := nlocals } : RState) [{}] := by
+  refine ⟨rfl, rfl, ?_, ?_, ?_, ?_, ?_, ?_⟩ <;> intro k <;>
     first
       | rfl
       | (show ([] : List Tok) = _
+         unfold frAt
+         cases k <;> rfl)
+      | (show ([] : List (List Tok × Nat)) = _
          unfold frAt
          cases k <;> rfl)
 
@@ -801,7 +899,7 @@ theorem lower_eq_spec (f : Func) (hsp : f.hasSpecial = true) (hentry : f.entry =
     show (modifyAt f.body _ _).length = _
     unfold modifyAt; split <;> simp
   obtain ⟨d', e1, e0, e2, e3, _⟩ := rloop_tied (f.body.length - 1) body0
-    { body := body0, entry := [], exit := [], nlocals := f.nlocals } [{}] [] out hp0 (tied_init body0 f.nlocals) (by simp) hs0
+    { body := body0, entry := [], exit := [], nlocals := f.nlocals } [{}] [] out hp0 (tied_init body0 [] [] f.nlocals) rfl rfl (by simp) hs0
   simp only [List.length_nil, List.nil_append] at e1 e2 e3
   have hd' : d'.length = f.body.length := by rw [e0, hlen0]
   unfold lower resolveSpecial
@@ -862,6 +960,7 @@ theorem specRun_keeps (last : Nat) : ∀ (xs : List Instr) (idx : Nat) (fr : Lis
             have : xs.isEmpty = false := by cases xs with | nil => exact absurd rfl hx | cons _ _ => rfl
             simp [this] at hguard
         obtain ⟨k1, k2, k3⟩ := ih (idx + 1) fr' outr h2 (by simp only [List.length_cons] at hl; omega) hguard'
+        have inX : ∀ t ∈ x.before, t ∈ out := by intro t ht; rw [← hs]; simp [ht]
         have inB : ∀ t ∈ B, t ∈ out := by intro t ht; rw [← hs]; simp [ht]
         have inR : ∀ t ∈ outr, t ∈ out := by intro t ht; rw [← hs]; simp [ht]
         -- `A` is emitted unless this is the last instruction
@@ -888,9 +987,9 @@ theorem specRun_keeps (last : Nat) : ∀ (xs : List Instr) (idx : Nat) (fr : Lis
               fun f hf t ht => inR t (k2 f (by rw [dropLast_cons_of_ne _ _ hfr']; exact List.mem_cons_of_mem _ hf) t ht), ?_⟩
             intro y hy
             rcases List.mem_cons.mp hy with rfl | hy
-            · refine ⟨fun t ht => inB t ht, fun _ t ht => ?_⟩
+            · refine ⟨inX, fun _ t ht => ?_⟩
               rcases ht with ht | ht | ht
-              · exact inA hxs t (by simp [ht])
+              · exact inA hxs t ht
               · exact inR t (hnew t (by simp [ht]))
               · exact inR t (hnewA t (by simpa using ht))
             · exact rest y hy
@@ -913,7 +1012,7 @@ theorem specRun_keeps (last : Nat) : ∀ (xs : List Instr) (idx : Nat) (fr : Lis
               · intro f hf t ht
                 rcases List.mem_cons.mp hf with rfl | hf
                 · rcases ht with ht | ht
-                  · exact inB t (by simp [ht])
+                  · exact inB t ht
                   · exact inR t (hnew t (by simp [ht]))
                 · exact inR t (k1 f (List.mem_cons_of_mem _ hf) t ht)
               · intro f hf t ht
@@ -923,9 +1022,9 @@ theorem specRun_keeps (last : Nat) : ∀ (xs : List Instr) (idx : Nat) (fr : Lis
                 · exact inR t (k2 f (by rw [dropLast_cons_of_ne _ _ hr]; exact List.mem_cons_of_mem _ hf) t ht)
               · intro y hy
                 rcases List.mem_cons.mp hy with rfl | hy
-                · refine ⟨fun t ht => inB t (by simp [ht]), fun _ t ht => ?_⟩
+                · refine ⟨inX, fun _ t ht => ?_⟩
                   rcases ht with ht | ht | ht
-                  · exact inA hxs t (by simp [ht])
+                  · exact inA hxs t ht
                   · exact inR t (hnew t (by simp [ht]))
                   · exact inR t (hnewA t (by simp [ht]))
                 · exact rest y hy
@@ -951,11 +1050,11 @@ theorem specRun_keeps (last : Nat) : ∀ (xs : List Instr) (idx : Nat) (fr : Lis
                   · rename_i he; exact hr (List.isEmpty_iff.mp he)
                   · cases h2
                 rcases List.mem_cons.mp hf with rfl | hf
-                · exact inA hxs t (by simp [ht])
+                · exact inA hxs t (by simp [endAfter, ht])
                 · exact inR t (k2 f hf t ht)
             · intro y hy
               rcases List.mem_cons.mp hy with rfl | hy
-              · exact ⟨fun t ht => inB t (by simp [ht]), fun hb => by simp [hk, Kind.isBlockStyle] at hb⟩
+              · exact ⟨inX, fun hb => by simp [hk, Kind.isBlockStyle] at hb⟩
               · exact rest y hy
         | br _ | brIf _ | brTable _ _ | exitLike | other =>
           all_goals
@@ -964,7 +1063,7 @@ theorem specRun_keeps (last : Nat) : ∀ (xs : List Instr) (idx : Nat) (fr : Lis
             refine ⟨fun f hf t ht => inR t (k1 f hf t ht), fun f hf t ht => inR t (k2 f hf t ht), ?_⟩
             intro y hy
             rcases List.mem_cons.mp hy with rfl | hy
-            · exact ⟨fun t ht => inB t ht, fun hb => by simp [hk, Kind.isBlockStyle] at hb⟩
+            · exact ⟨inX, fun hb => by simp [hk, Kind.isBlockStyle] at hb⟩
             · exact rest y hy
 
 /-- **no block-level probe is lost, for any plan in scope**: every `before` token, every block-entry, block-exit and semantic-after
